@@ -53,6 +53,17 @@ CLAIMED = {
         note="Python slicing and numpy argsort/sort/permutation/fancy-indexing contracts assumed; requested count proved for the listed values {1,3,50}; "
              "membership of each counted row in the top fraction is bounded only",
         ref="3/C14"),
+    "C08": dict(
+        text="Proof: for every number of chains, temperature ladder and proposed pair, the real swap() code exchanges iff "
+             "u <= exp((1/T_i-1/T_j)(L_j-L_i)) with L the untempered log-densities, hands chain i exactly (x_j, L_j) and chain j (x_i, L_i), "
+             "contacts no other chain and counts exactly that pair; the worker installs a received point with its log-probability "
+             "re-expressed at its own temperature and reports its current point; advance(n, swap_interval) requests exactly n steps "
+             "from every chain; the parent only performs blocking receives in connection order. Bounded: every outcome of the pairing "
+             "choices for N<=7 (exhaustive), real worker processes under injected delays.",
+        note="schedule independence = structural contract + Kahn determinacy (assumed) + bounded delay exploration; tight_pairs "
+             "disjointness is bounded-exhaustive (N<=7), assumed as contract inside swap(); swap_interval proved for {1,2,3,10,64}; "
+             "pipes are FIFO (assumed)",
+        ref="3/C08"),
     "C13": dict(
         text="Proof: for every sample length, column count and fraction, the interval returned by the real sample_hdi code has "
              "two sorted sample values L=floor(f*n) positions apart as end points (so it holds L+1 > f*n points), no window of "
